@@ -304,7 +304,7 @@ def judge(ctx, inputs, label):
         label, len(obs), ", ".join("%s %d" % kv for kv in sorted(stats.items())), len(bad)))
     if bad:
         # reproduce every rejected call from its resolved literal form before it counts
-        cand = [(gi, ent) for gi, ent in bad][:20000]
+        cand = sorted(bad, key=lambda b: (b[1][1], b[0]))[:20000]      # totality failures (clause 1) are reported first
         again = vlib.drive(ctx, "c12", [to_input(obs[gi]) for gi, _ in cand], timeout=3000)
         bad2 = dict(tlc_judge(ctx, again))
         for j, (gi, ent) in enumerate(cand):
